@@ -446,6 +446,28 @@ theorem get_body {m m' : Msgb} {n p : Nat} (i : Inv m) (h : get m n = .ok (m', p
   congr 1
   omega
 
+theorem putBytes_succeeds {m : Msgb} (i : Inv m) {bs : List Nat} (h : m.tail + bs.length ≤ m.dataLen) :
+    ∃ m', putBytes m bs = .ok m' := by
+  have := i.dl; have := i.te
+  have hp : put m bs.length = .ok ({ m with tail := m.tail + bs.length, len := u16 (m.len + bs.length) }, m.tail) := by
+    unfold put
+    rw [toI32_small (by omega), tailroom_eq i]
+    rw [if_neg (by omega), if_neg (by omega)]
+  simp only [putBytes, bind, Except.bind, hp]
+  rw [writeBytes_fits bs _ m.tail (by simp only; rw [i.mem]; exact h)]
+  exact ⟨_, rfl⟩
+
+theorem pushBytes_succeeds {m : Msgb} (i : Inv m) {bs : List Nat} (h : bs.length ≤ m.data) :
+    ∃ m', pushBytes m bs = .ok m' := by
+  have := i.dl; have := i.te; have := i.dt
+  have hp : push m bs.length = .ok ({ m with data := m.data - bs.length, len := u16 (m.len + bs.length) }, m.data - bs.length) := by
+    unfold push
+    rw [toI32_small (by omega), headroom_eq i]
+    rw [if_neg (by omega), if_neg (by omega)]
+  simp only [pushBytes, bind, Except.bind, hp]
+  rw [writeBytes_fits bs _ (m.data - bs.length) (by simp only; rw [i.mem]; omega)]
+  exact ⟨_, rfl⟩
+
 /-! ### inverse pairs -/
 
 /-- `msgb_put` then `msgb_get` of the same amount gives the buffer back (when `msgb_get` can form its
